@@ -214,4 +214,9 @@ def check(ctx):
             if rule in ("R15.1", "R15.2", "R15.3") and ("atomic_move" in key or "full_sync_move" in key or "ogre_array_pool_allocator" in key): return super().ob(rule, key, ok, site, detail, nontrivial, undecided)
             return ok
     C02.check(Ring(ctx, "R13.4")); C15.check(Ring(ctx, "R13.4"))
+    # 'one owner per pool slot' across the OgreUnique -> OgreArc conversion (shared with C14 R14.5 / R14.8): a conversion that lets the unique handle's Drop run frees
+    # the slot the new shared handle still owns -- the slot is handed out twice (two accepted events in one slot) and freed twice
+    if getattr(ctx, "pid", None) == "C13" and not isinstance(ctx, util.PrefixedCtx): __import__("importlib").import_module("props.C14").check_unique_to_shared(ctx, "R13.5")
+    # R13.6 a slot is not given back while its content is still being read: the zero-copy containers' consume runs the getter before release_leaked_* (shared with C01 R01.1)
+    __import__("importlib").import_module("props.C01").check_zero_copy_getters(util.PrefixedCtx(ctx, "R13.6"), "R01.1")
     ctx.floor("R13.4", 30 if ctx.config == "lib" else 20)
